@@ -28,8 +28,10 @@ def mk(docs, job, cfg):
         bi = 0
         uid = 0
         for i, (kind, topic, n) in enumerate(skel):
+            if topic == 'T':
+                topic = 't' * job.get('topic_len', 240)     # ':T' = the long topic of this job
             if kind in ('a', 'A', 'r', 'L', 'Ar', 'AL'):
-                wtopic = topic * 240 if kind in ('L', 'AL') else topic
+                wtopic = topic * job.get('topic_len', 240) if kind in ('L', 'AL') else topic
                 ents = []
                 for k in range(n):
                     if si >= len(sizes):
